@@ -6,7 +6,7 @@ and in seeded/MATRIX.md."""
 import json, os, subprocess, sys, tempfile, re
 HERE = os.path.dirname(os.path.dirname(os.path.abspath(__file__)))
 EXTRA = {"C03_a": ["C07"], "C03_b": ["C05"], "C08_a": ["C04"], "C08_b": ["C07"], "C02_b": ["C14"], "C18_a": ["C14"],
-         "C05_a": ["C03"], "C07_a": ["C03"], "C04_a": ["C08"]}
+         "C05_a": ["C03"], "C07_a": ["C03"], "C04_a": ["C08"], "C08_c": ["C04", "C14"], "C08_d": ["C04"], "C04_c": ["C14"], "C03_d": ["C06"], "C06_c": ["C03"], "C07_d": ["C03"], "C03_c": ["C07"], "C16_c": ["C17"]}
 ids = sys.argv[1:] or sorted(d for d in os.listdir(os.path.join(HERE, "seeded")) if os.path.isdir(os.path.join(HERE, "seeded", d)))
 claimed = {c["property_id"] for c in json.load(open(os.path.join(HERE, "MANIFEST.json")))["checks"]}
 rows = []
